@@ -56,6 +56,7 @@ J01(f, o) == (Dom(f, o) /\ SpecOk(f)) => (o.ok /\ ValuesEq(f, o) /\ Calls(o.even
 \* --- C03: conservation of unconsumed arguments (successful parses)
 J03(f, o) == (Dom(f, o) /\ SpecOk(f)) =>
                 (/\ o.ok /\ o.retargs = f.retargs /\ PosEq(f, o)
+                 /\ o.argvIntact                      \* the caller's vector is read, never written: no token of it is altered either
                  /\ \A i \in 1..Len(Execs(o.events)) : Execs(o.events)[i].args = f.retargs)
 
 \* --- C06: required options and argument counts
